@@ -847,6 +847,15 @@ pub fn check_main(args: &[String]) -> i32 {
                 harness_errors.push(format!("run {}: {}", run, what));
             }
         }
+        for (run, what) in sw.env_dependent.iter().take(3) {
+            let mut scratch = Stats::default();
+            if let Some(mut c) = crate::dispatch::make_case(&prop, seed, *run, &mut scratch) {
+                let class = "C19:real_binary_env_dependent".to_owned();
+                c.expect = Some(Expect { class: class.clone(), message: what.clone(), ..Default::default() });
+                Stats::bump(&mut stats.violations, &class, 1);
+                viols.push(VMsg { run: *run, class, message: what.clone(), minimised: false, case: c });
+            }
+        }
         for (run, what) in sw.not_reproducible.iter().take(3) {
             if prop == "C19" {
                 let mut scratch = Stats::default();
@@ -1133,6 +1142,7 @@ fn build_evidence(
                     "what": "the first cases of this check executed a second time by the binary built from /repo with the guard off (real file, real pipes, real main); stdout and exit status must equal the simulated ones byte for byte",
                     "sessions": f.sessions, "identical": f.compared, "not_comparable_out_of_fuel": f.not_comparable, "mismatches": f.mismatches.len(),
                     "real_binary_aborted_where_the_simulation_ends_properly": f.real_aborts.len(),
+                    "process_environment_pairs": if f.env_pairs > 0 { serde_json::json!({ "pairs": f.env_pairs, "differing": f.env_dependent.len(), "what": "C19 only: the real binary once more per case with every environment variable removed, then COLUMNS=40 LINES=10 TERM=dumb NO_COLOR LANG/LC_ALL=tr_TR.UTF-8 TZ HOME PATH TMPDIR RUST_LOG set, started from the file's directory with a relative path: stdout, stderr and status must be byte-identical" }) } else { serde_json::json!(null) },
                     "process_level_cases": if f.proc_cases > 0 { serde_json::json!({ "cases": f.proc_cases, "what": "C15 only: command lines without a file, with a missing file, a directory, empty / newline-less / non-UTF-8 / NUL / CRLF / BOM files, closed stdin under -i and in a service, macro chains of 10..400 levels, 3000 brackets / parameters, a call chain of 2000 - each must end by itself with a result or a diagnostic, never with a panic or a signal (bin.rs runs for real only here)" }) } else { serde_json::json!(null) }
                 }),
                 None => serde_json::json!({ "sessions": 0, "note": "SIMCTL_REAL_BIN not set: real binary not available to this run" }),
@@ -1222,6 +1232,37 @@ pub fn replay_main(args: &[String]) -> i32 {
                     0
                 }
             };
+        }
+        if case.expect.as_ref().map(|e| e.class.ends_with("real_binary_env_dependent")).unwrap_or(false) {
+            let bin = match crate::fidelity::real_bin() {
+                Some(b) => b,
+                None => {
+                    println!("HARNESS-ERROR: SIMCTL_REAL_BIN is not set (use ./check <ID> --replay <file>)");
+                    return 2;
+                }
+            };
+            let dir = format!("{}/sim/target/fidelity-replay", verif_home());
+            let mut outs: Vec<(bool, Vec<u8>, Option<i32>)> = Vec::new();
+            for k in 0..6 {
+                if let Some(r) = crate::fidelity::real_run_env(&case.scn, &bin, &dir, &format!("re{}", k), Duration::from_secs(60), k % 2 == 1) {
+                    outs.push((k % 2 == 1, r.stdout, r.code));
+                }
+            }
+            let a: std::collections::BTreeSet<(&Vec<u8>, &Option<i32>)> = outs.iter().filter(|o| !o.0).map(|o| (&o.1, &o.2)).collect();
+            let b: std::collections::BTreeSet<(&Vec<u8>, &Option<i32>)> = outs.iter().filter(|o| o.0).map(|o| (&o.1, &o.2)).collect();
+            println!("3 executions of the real binary in each of two process environments: {} / {} different results inside an environment", a.len(), b.len());
+            if a.len() == 1 && b.len() == 1 && a != b {
+                println!("the two environments give different output for the same file and input");
+                println!("VIOLATION property={} replay={}", case.property, path);
+                return 1;
+            }
+            if a.len() > 1 || b.len() > 1 {
+                println!("the output differs from execution to execution");
+                println!("VIOLATION property={} replay={}", case.property, path);
+                return 1;
+            }
+            println!("no violation reproduced");
+            return 0;
         }
         if case.expect.as_ref().map(|e| e.class.ends_with("real_binary_not_reproducible")).unwrap_or(false) {
             // executed by the real binary several times: same file, same input
